@@ -1399,8 +1399,8 @@ impl Engine for SessionEngine {
         set("MAX_CONCURRENT_UPLOADS", rng.pick(&[1usize, 2, 8]).to_string());
         // the in-memory chunk index of the shard cache has a cap (a designed exception to C11); small caps make its
         // bookkeeping matter, the oracle exempts sessions once the true number of indexed chunks may reach the cap
-        if focus == "C11" || rng.chance(1, 4) {
-            set("CHUNK_INDEX_TABLE_MAX_SIZE", rng.pick(&[64usize, 150, 400, 2000, 64 << 20]).to_string());
+        if focus == "C11" || rng.chance(1, 3) {
+            set("CHUNK_INDEX_TABLE_MAX_SIZE", rng.pick(&[4usize, 16, 64, 150, 400, 2000, 64 << 20]).to_string());
         }
         let frag = match focus {
             "C14" => true,
